@@ -104,3 +104,39 @@ Proof.
       (destruct st as [|k0 [|k1 [|k2 st']]]; cbn [length nth_error];
        split_conds; arith_close) ].
 Qed.
+
+(* ---------- constants (gen/SrcConsts.v): ASCII table, defaults, all_mutators / create, boundary
+   arrays, TypeConfusion's byte -> type table ---------- *)
+From PF Require Import Lex Entropy Mutators Front.
+From PF.gen Require SrcConsts.
+
+Lemma src_ascii_chars_eq : SrcConsts.Src.ascii_chars = ascii_chars.
+Proof. reflexivity. Qed.
+
+Lemma src_defaults_eq :
+  SrcConsts.Src.gen_default_min = default_min /\ SrcConsts.Src.gen_default_max = default_max
+  /\ SrcConsts.Src.gen_default_rate = default_rate /\ SrcConsts.Src.gen_default_flags = [false; false; false]
+  /\ SrcConsts.Src.cli_default_min = default_min /\ SrcConsts.Src.cli_default_max = default_max
+  /\ SrcConsts.Src.cli_default_rate = default_rate /\ SrcConsts.Src.cli_default_samples = default_samples.
+Proof. repeat split. Qed.
+
+Lemma src_all_mutators_eq : forall u, SrcConsts.Src.all_mutators u = all_mutators u.
+Proof. destruct u; reflexivity. Qed.
+
+Lemma src_create_eq : forall u k, SrcConsts.Src.create u k = create u k.
+Proof. destruct k; reflexivity. Qed.
+
+Lemma src_boundaries_eq :
+  SrcConsts.Src.int_boundaries = int_boundaries /\ SrcConsts.Src.long_boundaries = long_boundaries
+  /\ SrcConsts.Src.float_boundaries = float_boundaries.
+Proof. repeat split. Qed.
+
+(* opcode_to_type takes a u8: all 256 byte values *)
+Lemma src_byte_type_eq : forall b, (b < 256)%N -> SrcConsts.Src.byte_type b = byte_type b.
+Proof.
+  intros b Hb.
+  assert (E : forallb (fun x => N.eqb (SrcConsts.Src.byte_type x) (byte_type x)) (map N.of_nat (seq 0 256)) = true)
+    by (vm_compute; reflexivity).
+  rewrite forallb_forall in E. apply N.eqb_eq. apply E.
+  apply in_map_iff. exists (N.to_nat b). split; [apply N2Nat.id | apply in_seq; lia].
+Qed.
